@@ -12,6 +12,10 @@ META = {
 
 
 def run(ctx):
+    return graph_common.full(ctx)
+
+
+def _old_run(ctx):
     vh = ctx.build("graph")
     if ctx.replay:
         return graph_common.replay_only(ctx, vh, "braid")
